@@ -1,6 +1,7 @@
 """C17 — route resolution. Histories of save/del/match/get/all over nested and
 overlapping patterns; each Match is repeated by the harness so Go's map
-randomisation is exercised."""
+randomisation is exercised.  Stream "publish": histories on media.GetOrCreate
+(registry fast path, route, factory choice, Create(localPath, url), keep-alive)."""
 SEGS = ["a", "b", "ab", "A", "c"]
 
 def gen_path(rng, dirp=None):
@@ -132,7 +133,7 @@ def gen_publish_case(rng, nops):
     fs = rng.sample(FACTORY_POOL, k)
     if rng.random() < 0.1:
         fs = []
-    schemes = ["fka://", "fkb://", "fkc://", "rtsp://", "rtsp://", "http://"]
+    schemes = ["fka://", "fka://", "fkb://", "fkb://", "fkc://", "rtsp://", "rtsp://", "rtsp://", "http://"]
     ops, routes, paths = [], [], []       # routes: canonical patterns saved; paths: canonical stream paths touched
 
     def fresh_pattern():
@@ -236,6 +237,17 @@ def run(ck):
     return ck.finish(
         rule="random save/del/match/get/all histories over nested/overlapping directory and exact patterns "
              "(non-canonical spellings included), every Match repeated 5x against Go's randomised map order; "
-             "non-trivial = at least two saves and one match; plus CanonicalPath vs the Gallina model on strings over {a,B,/,.,space}",
-        trusted=["url.Parse is an oracle (generator emits only URLs it accepts); route URL non-empty (guard op_wf)"],
-        assumptions=["ASCII paths", "route URL non-empty (an empty URL makes Match index URL[-1]; modelled as Panic, excluded by op_wf)"])
+             "non-trivial = at least two saves and one match; "
+             "publish: random histories of route save/del, publisher registration, closure, media.Get and media.GetOrCreate on the real "
+             "media package with a per-case list (random subset and order) of pull factories: recording fakes with overlapping Can "
+             "prefixes and failing hosts, and the real RTSP factory against a loopback fake camera (DESCRIBE URL observed); "
+             "requests are respellings (upper case, no leading '/', '//', '/./', '/x/../', blanks, trailing '/') of route patterns + "
+             "remainders and of live stream paths, often asked twice in two spellings; non-trivial = a route and a non-canonically spelt request; "
+             "publish_unstable_witness: the known finding replayed; "
+             "plus CanonicalPath vs the Gallina model on strings over {a,B,/,.,space}",
+        trusted=["url.Parse is an oracle (generator emits only URLs it accepts); route URL non-empty (guard op_wf)",
+                 "whether a factory's Create succeeds is external (f_ok): the loopback fake camera cam.test answers, dead.test refuses; "
+                 "symbolic hosts are mapped to loopback addresses by the harness",
+                 "the recording wrapper around the real RTSP factory only records arguments and results"],
+        assumptions=["ASCII paths", "route URL non-empty (an empty URL makes Match index URL[-1]; modelled as Panic, excluded by op_wf)",
+                     "GetOrCreate theorems: CanonicalPath(request) is a fixed point of CanonicalPath (guard req_stable; known finding publish-request-canon-unstable)"])
